@@ -29,7 +29,7 @@ def gen_case(rng, idx):
         table.insert(rng.randrange(0, n + 1), ['e', rng.randrange(1, 4)])
         table = table[:[k for k, _ in table].index('e') + 1]
     stop = rng.choice([None, None, 1, 2, 3, 6]) if idx >= 3 else 2
-    return {'op': op, 'src': table, 'stop_after': stop, 'slots': rng.choice([3, 4, 6]),
+    return {'op': op, 'src': table, 'stop_after': stop, 'slots': rng.choice([1, 1, 2, 3, 6]),
             'stop_kind': rng.choice(['break', 'break', 'cancel', 'gc']) if op != 'synciter' else rng.choice(['break', 'gc']),
             'cons_ms': rng.choice([0, 0, 5, 20]), 'src_ms': rng.choice([0, 0, 1])}
 
